@@ -7,7 +7,7 @@ VARIABLES t0, t, hist, last
 
 vars == <<t0, t, hist, last>>
 
-NameArgs == {"", "abc", "x-y", "7", "+7", "007", "+", "-1", "-0", "1.5", " 7", "7 ", "7_0", "٣",
+NameArgs == {"$x", "#y", "?z", "^op", "_", "", "abc", "x-y", "7", "+7", "007", "+", "-1", "-0", "1.5", " 7", "7 ", "7_0", "٣",
              VocabAll.usize_max, "18446744073709551616", "99999999999999999999999", "+00000000000000000000000000000000012",
              "+" \o VocabAll.usize_max, "0" \o VocabAll.usize_max, "²", "1½", "4294967296"}
 PushArgs == {<<>>, <<W("a")>>, <<W("a"), W("a")>>, <<W("b"), W("a")>>, <<PH>>, <<SE1(W("a")), W("z")>>, <<W("c"), W("a"), W("c"), W("d")>>}
